@@ -134,4 +134,28 @@ theorem emuRun_wf {e : Emu} (h : WF e) (hen : e.enabled.contains 79 = true) :
       exact ⟨hw, hso.static.trans hst⟩
 end
 
+/-- counting after one entry of the logical state changed -/
+theorem count_set {α} (p : α → Bool) (new : α) :
+    ∀ (s : List α) (i : Nat) (old : α), s[i]? = some old →
+      ((s.set i new).filter p).length + (if p old then 1 else 0) =
+        (s.filter p).length + (if p new then 1 else 0)
+  | [], _, _, h => by simp at h
+  | x :: xs, 0, old, h => by
+    simp at h; subst h
+    simp only [List.set_cons_zero, List.filter_cons]
+    cases p x <;> cases p new <;> simp
+  | x :: xs, i + 1, old, h => by
+    simp at h
+    have ih := count_set p new xs i old h
+    simp only [List.set_cons_succ, List.filter_cons]
+    cases p x <;> simp <;> omega
+
+theorem runCount_set {s : LState} {ti : Nat} {old new : ThState × Option Nat} (h : s[ti]? = some old) (g : Nat) :
+    runCount (s.set ti new) g + (if (old.1 = .running ∧ old.2 = some g) then 1 else 0) =
+      runCount s g + (if (new.1 = .running ∧ new.2 = some g) then 1 else 0) := by
+  have := count_set (fun x : ThState × Option Nat => decide (x.1 = .running) && (x.2 == some g)) new s ti old h
+  unfold runCount
+  simp only [Bool.and_eq_true, decide_eq_true_eq, beq_iff_eq] at this
+  exact this
+
 end Ovni.Emu
